@@ -127,9 +127,9 @@ Qed.
    solves with fresh parts; a step that does not diverge is never reported as failed *)
 Definition step_ok (d : bool) (r : sres) : Prop :=
   match r with SFailed => d = true | SSolved fr => d = false /\ solve_is_fresh fr = true | SSilent => False end.
-Lemma run_steps_div_ok divs : forall cs stored fr,
+Lemma run_steps_div_old_ok divs : forall cs stored fr,
   G12c cs = true -> Forall (fun c => sound c = true) cs -> fresh fr ->
-  Forall2 step_ok divs (run_steps_div divs cs false stored false fr).
+  Forall2 step_ok divs (run_steps_div_old divs cs false stored false fr).
 Proof.
   induction divs as [|d ds IH]; intros cs stored fr HG Hs Hf; cbn; [constructor|].
   destruct d.
@@ -142,7 +142,7 @@ Qed.
    solvable steps are reported as failed *)
 Lemma divergence_poisons_refuted :
   exists cs divs, Forall (fun c => sound c = true) cs /\
-    ~ Forall2 step_ok divs (run_steps_div divs cs false false false all_fresh).
+    ~ Forall2 step_ok divs (run_steps_div_old divs cs false false false all_fresh).
 Proof.
   exists [CConst false "load" "p_mw"; CTap false "trafo"], [false; true; false].
   split; [repeat constructor|].
@@ -152,11 +152,24 @@ Qed.
 (* with batch reading (only_v_results) a diverging recycled step is recorded silently *)
 Lemma divergence_silent_refuted :
   exists cs divs, G12c cs = true /\ Forall (fun c => sound c = true) cs /\
-    ~ Forall2 step_ok divs (run_steps_div divs cs true false false all_fresh).
+    ~ Forall2 step_ok divs (run_steps_div_old divs cs true false false all_fresh).
 Proof.
   exists [CConst false "load" "p_mw"], [false; true].
   split; [reflexivity|]. split; [repeat constructor|].
   intros H. inversion H as [|? ? ? ? _ H2]. subst. inversion H2 as [|? ? ? ? H3 _]. subst. exact H3.
+Qed.
+
+(* repaired behaviour: for every history of diverging / solvable steps, every solvable step solves with fresh parts, every
+   diverging step is reported as failed and no other step is *)
+Lemma run_steps_div_ok divs : forall cs stored fr,
+  Forall (fun c => sound c = true) cs -> fresh fr ->
+  Forall2 step_ok divs (run_steps_div divs cs stored fr).
+Proof.
+  induction divs as [|d ds IH]; intros cs stored fr Hs Hf; cbn; [constructor|].
+  destruct d.
+  - constructor; [reflexivity | apply IH; assumption].
+  - pose proof (time_step_fresh cs stored fr Hs Hf) as H1.
+    constructor; [split; [reflexivity | apply solve_is_fresh_iff; exact H1] | apply IH; assumption].
 Qed.
 
 (* exhaustive over the finite (element, variable) domain: every ConstControl is sound *)
